@@ -15,6 +15,7 @@ using hx::Pair;
 
 namespace lk {
 std::function<void()>* g_hold[8];
+void* g_other = nullptr;
 }
 
 namespace {
